@@ -189,6 +189,13 @@ class CallMixin:
             if mk is not None:
                 return mk.fresh(self, name)
             raise Unsupported(f"unknown class {cn!r} in kind")
+        if kind.startswith("oneof:"):
+            # an object of one of several classes: which one is a (fresh) decision of the path
+            alts = [a.strip() for a in kind[len("oneof:"):].split("|")]
+            for alt in alts[:-1]:
+                if self.path.branch(self.path.const(f"{name}.is[{alt.rsplit('.', 1)[-1]}]", BOOL)):
+                    return self._fresh_value("obj:" + alt, name)
+            return self._fresh_value("obj:" + alts[-1], name)
         if kind.startswith("optobj:"):
             raise Unsupported("optional objects must be declared as two contract cases")
         v = vals.fresh(kind, self.path.name(name))
